@@ -674,7 +674,12 @@ def sequences(tier, geoms, ops, rng):
         must = [(gi, o) for gi, o in singles if op_key(o[0]) in want.get(geom_key(geoms[gi]), ())]
         if len(must) != sum(len(v) for v in want.values()):
             die_broken("the fixed part of the quick universe is no longer inside Emit_Backups (%d of %d elements found)" % (len(must), sum(len(v) for v in want.values())))
-        seqs = must + seqs
+        # ... and the shortest behaviour that exercises the known finding (replays/C20/known_backup_search_ss2.json)
+        kf = [gi for gi in range(len(geoms)) if geom_key(geoms[gi]) == "ss2_2/bs1024/g256/n2"]
+        kops = [[o for o in ops[gi] if op_key(o) == k] for gi in kf for k in ("resize:50", "fsck:primgd")]
+        if len(kf) != 1 or any(len(x) != 1 for x in kops):
+            die_broken("the known-finding element is no longer inside Emit_Backups")
+        seqs = must + [(kf[0], [kops[0][0], kops[1][0]])] + seqs
     return seqs, dict(singles=len(singles), pairs=npairs, triples=ntriples, fixed_singles_in_quick=(len(must) if tier != "thorough" else 0))
 
 
@@ -685,7 +690,7 @@ def model_check(tier, ev, vd):
     cfgs = ["MC_Backups_wide.cfg", "MC_Backups_deep.cfg"] if tier == "thorough" and os.environ.get("VERIF_C20_MC") != "quick" else ["MC_Backups_quick.cfg"]
     for c in cfgs:
         r = T.tlc(mod, os.path.join(SPEC, c), workers=4, timeout=2700, xmx="4g")
-        ev.add_tlc(r, "MC_Backups (%s): geometries x tool sequences x DestroyPrimary/RecoverFrom; TypeOK, InvCurrent, InvBackupSet, Ss2Shape, InvRecover" % c)
+        ev.add_tlc(r, "MC_Backups (%s): geometries x tool sequences x DestroyPrimary/RecoverFrom; TypeOK, InvCurrent, InvBackupSet, Ss2Shape, InvRecover, action property FsckKeeps" % c)
         if r.violated:
             vd.violation("model:" + r.violated, "Backups model (%s): %s violated" % (c, r.violated), {"tlc": r.out[-4000:]})
         elif not r.ok:
@@ -696,11 +701,17 @@ def model_check(tier, ev, vd):
         if r2.violated != "InvCurrent":
             die_broken("negative control %s did not produce the InvCurrent counterexample (%s %s): the invariant does not bind" % (dev, r2.violated, r2.error))
         ces.append(dev)
+    r3 = T.tlc(mod, os.path.join(SPEC, "MC_Backups_DevBackupSearchIgnoresSs2.cfg"), workers=2, timeout=600, xmx="2g")
+    if r3.violated != "FsckKeeps":
+        die_broken("the model with DevBackupSearchIgnoresSs2 = TRUE did not produce the FsckKeeps counterexample (%s %s)" % (r3.violated, r3.error))
+    ces.append("DevBackupSearchIgnoresSs2 (FsckKeeps)")
     ev.cov["negative_controls_with_counterexample"] = ces
 
 
 TR_MOD = os.path.join(SPEC, "Trace_Backups.tla")
-TR_CFG = os.path.join(SPEC, "Trace_Backups.cfg")
+TR_CFG = os.path.join(SPEC, "Trace_Backups.cfg")                     # conformance: the known deviation DevBackupSearchIgnoresSs2 enabled
+TR_STRICT = os.path.join(SPEC, "Trace_Backups_strict.cfg")           # the property as stated (every deviation off)
+DEV_KEY = "DevBackupSearchIgnoresSs2"
 
 
 def behaviour_lines(res):
@@ -782,12 +793,40 @@ def run(tier):
             vd.violation(key, "%s, %s -> %s%s" % (geom_key(geoms[gi]), " ; ".join(again["info"].get("done", [])) or "mke2fs", what, inv_s),
                          {"geom": geoms[gi], "ops": o, "line_index": li, "line": l, "tool_output": again["info"]["detail"].get(li, ""),
                           "skipped": again["info"]["skipped"]})
+        # ---- second pass, the property as stated: behaviours in which e2fsck had to find a backup by itself (plain e2fsck on a
+        # destroyed primary, or the fall-back after damaged primary descriptors) are validated with the deviation OFF; a
+        # rejection there (and only at such a line) is the known finding, routed through its key
+        cand = [i for i in live if i not in failed and any(l["e"] == "plain" or (l["e"] == "fsck" and l.get("frombackup") == 1) for l in res[i]["lines"])]
+        dev_hits = []
+        if cand:
+            out2 = tracecheck.validate([behaviour_lines(res[i]) for i in cand], TR_MOD, TR_STRICT, work, chunk_lines=160, timeout=900, jobs=3)
+            if out2["broken"]:
+                die_broken("TLC failed on a trace chunk (strict cfg): %s\n%s" % (out2["broken"][0]["error"], out2["broken"][0]["out_tail"][-1800:]))
+            ev.cov["states"] += out2["distinct"]; ev.cov["transitions"] += out2["generated"]
+            for f in out2["failures"]:
+                ci = cand[f["behaviour"]]
+                li = f["line_in_behaviour"]
+                l = res[ci]["lines"][li] if li < len(res[ci]["lines"]) else {}
+                if not (l.get("e") == "plain" or (l.get("e") == "fsck" and l.get("frombackup") == 1)) or f["violated"]:
+                    die_broken("the strict trace cfg rejects %s / %s at line %d (%s), which is not a backup-search line" % (geom_key(geoms[seqs[ci][0]]), [op_key(x) for x in seqs[ci][1]], li, l.get("e")))
+                gi, o = seqs[ci]
+                if l["e"] == "plain":
+                    what = "plain e2fsck -fy after the primary was destroyed: exit %d, e2fsck -fn %d, tree %s" % (l["rc"], l["fn"], "same" if l["tree_post"] == l["tree_pre"] else "CHANGED")
+                else:
+                    s2 = l["obs"]["prim"]["sb"]
+                    what = "e2fsck -fy fell back to a stale copy: the filesystem now has %d groups, s_backup_bgs %s" % (s2["gdc"], s2["bk"])
+                dev_hits.append("%s | %s" % (geom_key(geoms[gi]), ";".join(res[ci]["info"].get("done", []))))
+                vd.violation(DEV_KEY, "%s, %s -> %s" % (geom_key(geoms[gi]), " ; ".join(res[ci]["info"].get("done", [])) or "mke2fs", what),
+                             {"geom": geoms[gi], "ops": o, "line_index": li, "line": l, "tool_output": res[ci]["info"]["detail"].get(li, "")})
+        ev.cov["strict_pass_behaviours"] = len(cand)
+        ev.cov["known_deviation_hits"] = sorted(set(dev_hits))[:60]
         # ---- evidence
         nlines = sum(len(r["lines"]) for r in res)
         nrec = sum(1 for r in res for l in r["lines"] if l["e"] in ("recover", "plain"))
         ev.cov["evaluations"] = nlines
         ev.cov["behaviours"] = len(live)
         ev.cov["traces_validated_against_impl"] = len(live) - len(failed)
+        ev.cov["traces_also_accepted_by_the_strict_cfg"] = len(cand) - len(set(dev_hits))
         ev.cov["recoveries"] = nrec
         ev.cov["plain_e2fsck_recoveries"] = sum(1 for r in res for l in r["lines"] if l["e"] == "plain")
         ev.cov["tool_lines"] = nlines - nrec
@@ -818,7 +857,7 @@ def run(tier):
                 if l["e"] == "recover" and l["g"] != 1:
                     ev.nontrivial((g, last.split(":")[0], l["g"]))
         ev.cov["rule"] = ("universe = Emit_Backups: %d geometries x Ops(geometry)^(<=3) x every prescribed backup location of the final image; "
-                          "quick = 28 fixed singles + one seeded single per (profile, op kind) up to 38 + 10 seeded pairs + 8 seeded triples, at most 5 locations per image "
+                          "quick = 28 fixed singles + 1 fixed pair + one seeded single per (profile, op kind) up to 38 + 10 seeded pairs + 8 seeded triples, at most 5 locations per image "
                           "(first, last, seeded); thorough = all singles + 500 seeded pairs + 400 seeded triples, every location.  evaluations = trace lines decided by TLC; "
                           "non-trivial = (geometry, last tool, location) triples whose location is not group 1" % len(geoms))
         for r in [x for x in res if x["lines"]][:3]:
@@ -832,6 +871,7 @@ def run(tier):
             "a valid copy = magic, s_block_group_nr = its group, superblock checksum verifies (metadata_csum)",
             "a refused tool run (exit != 0) carries no obligation and is skipped; a tool run (resize2fs, tune2fs [+ the e2fsck it asks for], repairing e2fsck) after which e2fsck -fn is not clean is rejected: the property's experiment presupposes a consistent image (such a run also violates C08 / C11)",
             "environment steps are written by the harness itself: primary-only feature bit (dir_prealloc), zeroed inode-table pointer in the primary descriptors, one flipped block-bitmap bit, stale feature word in the FIRST backup copy (the only one check_backup_super_block looks at); damage to other backup copies is outside the universe",
+            "conformance is checked with the named deviation DevBackupSearchIgnoresSs2 enabled (known finding, fixes/C20_known_findings.txt): e2fsck's own backup search probes groups 1, 3, 5, 7, 9, 25, ... and takes the first superblock-looking block, whatever s_backup_bgs says and however stale; every behaviour in which that search ran is validated a second time with the deviation off, and a rejection there is reported as the known finding",
             "meta_bg: the primary copy of a descriptor block is zeroed only when the format prescribes a backup of it (the meta group has a second group)",
             "tree equality = digest of the independent reader's tree projection (paths, types, sizes of non-directories, modes, owners, link counts, mtimes, xattrs, content digests); compared as strings by TLC",
         ]
@@ -866,7 +906,14 @@ def replay(path):
             what, l = describe_failure(res, matched if matched is not None else 0)
             print("VIOLATION property=%s replay=%s  (%s%s)" % (PID, path, what, (" [invariant %s]" % inv) if inv else ""))
             return 1
-        print("replay accepted by Trace_Backups")
+        rej2, matched2, inv2, tail2, rr2 = tracecheck.confirm(behaviour_lines(res), TR_MOD, TR_STRICT, work, timeout=600)
+        if rr2["error"]:
+            die_broken("TLC failed (strict cfg): %s\n%s" % (rr2["error"], tail2[-1500:]))
+        if rej2:
+            what, l = describe_failure(res, matched2 if matched2 is not None else 0)
+            print("KNOWN-FINDING: property=%s accepted only with %s enabled: %s" % (PID, DEV_KEY, what))
+            return 0
+        print("replay accepted by Trace_Backups (conformance and strict cfg)")
         return 0
     finally:
         shutil.rmtree(work, ignore_errors=True)
